@@ -101,3 +101,12 @@ func (s *Scanner) VerifOpenLexeme() (LexemeEventType, []byte, bool) {
 	}
 	return e.type_, s.data[e.position:s.curIndex], true
 }
+
+// VerifStepStackNames returns the names of the step functions on the step stack, bottom first.
+func (s *Scanner) VerifStepStackNames() []string {
+	out := make([]string, len(s.stepStack))
+	for i, f := range s.stepStack {
+		out[i] = verifFuncName(f)
+	}
+	return out
+}
